@@ -10,7 +10,8 @@ static uint8_t IMG[MAXK][32]; static int NK;
 static const unsigned MASKS[3] = { 0, 5, 7 };
 
 static void try_buf(const uint8_t buf[32], unsigned mask, struct res *r, uint64_t id, const char *fam) {
-    uint8_t copy[32]; memcpy(copy, buf, 32);
+    /* the caller's buffers may sit at any address: images are presented at offsets 0..3 from an aligned block */
+    uint8_t raw[40] __attribute__((aligned(16))); uint8_t *copy = raw + (id >> 1) % 4; memcpy(copy, buf, 32);
     polyseed_enable_features((id & 1) ? (mask | 0xFFFFFFF8u) : mask);     /* only the three low bits of the argument count */
     polyseed_data *d = NULL; rseed want_s;
     int st = polyseed_load(copy, &d), want = ref_load(buf, mask, &want_s);
@@ -25,7 +26,7 @@ static void try_buf(const uint8_t buf[32], unsigned mask, struct res *r, uint64_
         ledger_drop_all(); return;
     }
     if (st == POLYSEED_OK) {
-        uint8_t back[32]; obs o; char why[200];
+        uint8_t rawb[40] __attribute__((aligned(16))); uint8_t *back = rawb + 1 + (id >> 3) % 3; obs o; char why[200];
         polyseed_store(d, back); r->calls++;
         observe(d, 5, &o); r->calls += 12;
         int ok = !memcmp(back, buf, 32) && obs_matches_ref(&o, &want_s, 5, why, sizeof why);
